@@ -60,6 +60,18 @@ Theorem capabilities_after_hook : forall c q,
   /\ In H_supenc (caps (tg c)) /\ In H_ext_enabled (caps (tg c)).
 Proof. intros. split; [apply serve_one_caps | apply caps_always]. Qed.
 
+(* The externalization capability is never absent after the hook succeeded, for
+   every external-location configuration: none, a resolve-only config (present
+   but without a Storage backend) or a Storage-backed one; its value says true
+   exactly when a Storage backend is configured. ([c20_table_resolve] re-tabulates
+   the compiled code under a resolve-only config, see compiled_lattice_points.) *)
+Theorem externalization_capability_after_hook : forall c q,
+  In H_ext_enabled (r_std (serve_one c true q))
+  /\ r_ext (serve_one c true q) = (if is_storage (c_extmode c) then 2 else 1)%N.
+Proof.
+  intros. split; [apply serve_one_caps, caps_always | apply serve_one_ext].
+Qed.
+
 (* ... and the response to a request refused because the hook failed carries
    the correlation id and nothing else that is tracked. *)
 Theorem hook_failure_exit : forall c q,
@@ -117,7 +129,7 @@ Proof. exact cors_response_exposed. Qed.
    on the real masks themselves. Dropping a name from the expose list in Go
    breaks this theorem at make time. *)
 Theorem compiled_lattice_points : forall r,
-  In r c20_table -> row_ok r = true /\ row_covered r = true.
+  In r (c20_table ++ c20_table_resolve) -> row_ok r = true /\ row_covered r = true.
 Proof. exact table_row. Qed.
 
 (* ---- decidable form, evaluated on the implementation's observables ------- *)
@@ -139,9 +151,11 @@ Proof. exists witness_input. exact legacy_spec_refuted. Qed.
 Example premises_satisfiable :
   mint_shape (str "0123456789abcdef") = true
   /\ oracle_ok witness_input = true
-  /\ (0 < length c20_table)%nat
+  /\ (0 < length c20_table)%nat /\ (0 < length c20_table_resolve)%nat
   /\ c_cors witness_config = true
   /\ go_trim_space (hx "c2a02069642d31e2808309") = str "id-1"
   /\ resolve_request_id [hx "c2a02069642d31e2808309"; str "second"] (str "0123456789abcdef") = str "id-1"
   /\ resolve_request_id [str "  "] (str "0123456789abcdef") = str "0123456789abcdef".
-Proof. repeat split; try (vm_compute; reflexivity). exact table_nonempty. Qed.
+Proof.
+  repeat split; try (vm_compute; reflexivity); [exact table_nonempty | exact table_resolve_nonempty].
+Qed.
